@@ -50,6 +50,7 @@ fn setting_bits(s: u8) -> u8 {
 #[derive(Default)]
 pub struct Local {
     mismatched: u64,
+    scale_docs: u64,
     errpos_at_tag: u64,
     errpos_other: u64,
     unmatched: u64,
@@ -291,6 +292,34 @@ fn run(ctx: &mut Ctx) {
             break;
         }
     }
+    // (4) scale: nesting depths and sibling counts around 32 .. 8192, every setting, with the name check
+    // switched off and on again at various depths
+    let max = if ctx.scale_pct < 100 { 64 } else { t.pick(1024, 8192) };
+    for (kind, size, doc) in crate::gen::scale_docs(ctx.shard, ctx.nshards, ctx.seed, max) {
+        if !matches!(kind, 0 | 9 | 10 | 11 | 14) {
+            continue;
+        }
+        loc.scale_docs += 1;
+        for s in 0..16u8 {
+            let base = setting_bits(s);
+            let size = size as u32;
+            let histories: Vec<Vec<(u32, u8)>> = vec![
+                vec![],
+                // one switch flipped half way down / at the bottom / on the way up
+                vec![(size / 2, base ^ SWITCHES[r.below(SWITCHES.len())])],
+                vec![(size, base ^ SWITCHES[0])],
+                vec![(size + size / 3, base ^ SWITCHES[r.below(SWITCHES.len())])],
+                // off on the way down, on again at the bottom
+                vec![(1, base ^ SWITCHES[0]), (size + 1, base)],
+            ];
+            for flips in histories {
+                if !run_case(ctx, &mut loc, &doc, &CfgHist { base, flips, raw: vec![] }) {
+                    break;
+                }
+            }
+        }
+    }
+    ctx.add("scale_documents", loc.scale_docs);
     ctx.add("errors.Mismatched", loc.mismatched);
     ctx.add("observation.error_position_at_end_tag", loc.errpos_at_tag);
     ctx.add("observation.error_position_elsewhere", loc.errpos_other);
